@@ -123,6 +123,70 @@ def _engine_case(args):
     w.close()
     return out
 
+def _recovery_case(args):
+    """The places that derive the state machine from the execution ARN instead of being told: the record rebuilt after a
+    restart, the details of an execution that has no record (EXPRESS, or STANDARD ended right after a restart), and the
+    time-out backstop driven by the heart-beat.  (machine name, execution name, type, mode)"""
+    m, e, typ, mode = args
+    from harness.world import World, sm_arn, exec_arn
+    from harness.api import ApiClient
+    FA = "arn:aws:rpcmessage:local::function:"
+    Z = {"Type": "Pass", "End": True}
+    if mode == "restart-then-timeout":
+        # a branch Task whose worker never answers, interrupted by a restart: only the heart-beat driven backstop ends the execution
+        d = {"TimeoutSeconds": 5, "StartAt": "P", "States": {"P": {"Type": "Parallel", "Next": "Z", "Branches": [{"StartAt": "T", "States": {"T": {"Type": "Task", "Resource": FA + "f", "End": True}}}]}, "Z": Z}}
+    elif mode == "restart-in-branch":
+        d = {"StartAt": "P", "States": {"P": {"Type": "Parallel", "Next": "Z", "Branches": [{"StartAt": "T", "States": {"T": {"Type": "Task", "Resource": FA + "f", "End": True}}}]}, "Z": Z}}
+    elif mode == "restart-then-fail":
+        d = {"StartAt": "T", "States": {"T": {"Type": "Task", "Resource": FA + "f", "Next": "Z"}, "Z": Z}}
+    else:
+        d = {"StartAt": "T", "States": {"T": {"Type": "Task", "Resource": FA + "f", "Next": "Y"}, "Y": {"Type": "Pass", "Next": "Z"}, "Z": Z}}
+    reply = ["err", "E1", "boom"] if mode == "restart-then-fail" else ["ok", {"r": 1}]
+    sc = {"name": "c17r", "machines": {m: {"definition": d, "type": typ}}, "record_sites": False, "workers": {"f": {"*": [["none"] if mode == "restart-then-timeout" else ["delay", reply]]}},
+          "starts": [{"machine": m, "name": e, "input": {"k": 1}}], "horizon": 2000.0, "restart-then-timeout": mode == "restart-then-timeout"}
+    w = World(sc)
+    out = []
+    sarn, want_e = sm_arn(m), exec_arn(m, e)
+    if mode.startswith("restart") or mode == "restart-then-timeout":
+        guard = 0
+        while not w.workers["f"].requests and guard < 200:
+            en = w.enabled()
+            if not en:
+                break
+            w.step(en[0]); guard += 1
+        if not w.workers["f"].requests:
+            out.append(("recovery-not-reached", m, e, mode))
+        w.step(("crash", 1))
+        w.step(("restart", 1))
+    w.run(max_steps=3000)
+    api = ApiClient(w)
+    term = 0
+    for nt in w.notes:
+        det = nt["body"]["detail"]
+        if det.get("status") != "RUNNING":
+            term += 1
+        if det.get("executionArn") != want_e or det.get("stateMachineArn") != sarn or det.get("name") != e or nt["key"] != sarn + "." + str(det.get("status")) \
+                or nt["body"].get("resources") != [want_e]:
+            out.append(("notification-" + mode, m, e, [det.get("executionArn"), det.get("stateMachineArn"), det.get("name"), nt["key"]]))
+    if term != 1:
+        out.append(("terminal-count-" + mode, m, e, term))
+    if typ == "STANDARD":
+        rec = w.executions().get(want_e)
+        if not rec or rec.get("stateMachineArn") != sarn or rec.get("name") != e or rec.get("executionArn") != want_e:
+            out.append(("record-" + mode, m, e, rec and [rec.get("stateMachineArn"), rec.get("name"), rec.get("executionArn")]))
+        st2, js2, _ = api.call("DescribeStateMachineForExecution", {"executionArn": want_e})
+        if st2 != 200 or js2.get("stateMachineArn") != sarn:
+            out.append(("sm-for-execution-" + mode, m, e, st2))
+        st3, js3, _ = api.call("ListExecutions", {"stateMachineArn": sarn})
+        listed = [x.get("executionArn") for x in (js3 or {}).get("executions", [])] if st3 == 200 else None
+        if listed != [want_e]:
+            out.append(("listed-under-machine-" + mode, m, e, listed))
+        st4, js4, _ = api.call("DescribeExecution", {"executionArn": want_e})
+        if st4 != 200 or js4.get("stateMachineArn") != sarn or js4.get("name") != e:
+            out.append(("describe-" + mode, m, e, st4))
+    w.close()
+    return out
+
 def _unvalidated_case(args):
     """Names that never pass through the API validator: a child launch's Parameters.Name and a raw start event's Execution.Name."""
     name, typ = args[0], args[1]
@@ -164,10 +228,14 @@ def run(tier, seed):
             jobs.append((pick[i:i + 4], ["e", "a.b-c_d", pick[i]], typ))
     ujobs = [(nm, typ) for nm in ("c1", "a.b", "a:b", "a/b", "a b", "x:y:z") for typ in ("STANDARD", "EXPRESS")]
     ujobs += [("c1", typ, reg) for typ in ("STANDARD", "EXPRESS") for reg in ("", "eu-west-1")]
+    rnames = ["a", "a.b-c_d", "0.", "-_", "n" * 80] + (["__", "a0", ".-"] if tier == "thorough" else [])
+    rjobs = [(mn, en, typ, mode) for mn in rnames for en in (["e", "my-run.2030_03-17", mn] if tier == "thorough" else ["my-run.2030_03-17", mn][: 2 if len(mn) < 80 else 1])
+             for typ in ("STANDARD", "EXPRESS") for mode in ("restart", "restart-then-fail", "restart-in-branch", "restart-then-timeout", "plain")]
     ctx = multiprocessing.get_context("fork")
     with ctx.Pool(common.JOBS) as pool:
         outs = pool.map(_engine_case, jobs, chunksize=1)
         uouts = pool.map(_unvalidated_case, ujobs, chunksize=1)
+        routs = pool.map(_recovery_case, rjobs, chunksize=2)
     nc = 0
     for (mn, en, typ), res in zip(jobs, outs):
         nc += len(mn) * len(en)
@@ -182,12 +250,18 @@ def run(tier, seed):
             sig = "derive|%s|%s|sep=%s" % (kind, typ, sep)
             cr.add(sig, "unvalidated execution name %r (%s child / raw event): identifiers derived as %r" % (name, typ, got),
                    {"kind": "unvalidated", "property": PROP, "signature": sig, "name": name, "type": typ}, size=len(name))
+    for rj, res in zip(rjobs, routs):
+        nc += 1
+        for kind, m, e, got in res:
+            sig = "derive|%s|%s" % (kind, rj[2])
+            cr.add(sig, "machine %r execution %r (%s): %s -> %r" % (m, e, rj[3], kind, got), {"kind": "recovery", "property": PROP, "signature": sig, "case": list(rj)}, size=len(m) + len(e))
     cr.coverage = {
         "evaluations": na + nb + nc, "distinct_nontrivial": acc + nc,
         "rule": "(a) create_arn/parse_arn over all %d part combinations; (b) every string of length <= %d over %d characters (letters, digits, ARN separators, every character valid_name rejects) plus "
                 "lengths 79/80/81 and non-strings through valid_name: every accepted name must give state-machine and execution ARNs that split back (incl. the engine's split-at-last-colon derivation); "
                 "(c) machines/executions named from the accepted set created and started through the real API, STANDARD and EXPRESS, every identifier in the API answers, records, notifications "
-                "(detail, subject, resources) compared; (d) names that bypass the validator (child Parameters.Name, raw start event)" % (na, 2 if tier == "quick" else 3, len(ALPHA)),
+                "(detail, subject, resources) compared; (d) names that bypass the validator (child Parameters.Name, raw start event); (e) the derivations from the execution ARN: record rebuilt after a crash + restart "
+                "(blocked top-level Task, Task in a branch, Task that then fails), details of record-less (EXPRESS) executions, time-out of a silent Task after the restart (the heart-beat backstop itself is not reached by any scenario); record, notifications, Describe*, ListExecutions by machine" % (na, 2 if tier == "quick" else 3, len(ALPHA)),
         "accepted_names": acc, "engine_executions": nc,
         "samples": [{"name": "a.-"}, {"unvalidated_child_name": "a:b"}], "exhaustive": True,
     }
@@ -202,6 +276,10 @@ def replay(rp):
         part_b(cr, "quick")
     elif rp["kind"] == "derive":
         res = _engine_case(([rp["machine"]], [rp["execution"]], rp["type"]))
+        print(("REPRODUCED property=C17 %r" % res) if res else "not reproduced")
+        return 1 if res else 0
+    elif rp["kind"] == "recovery":
+        res = _recovery_case(tuple(rp["case"]))
         print(("REPRODUCED property=C17 %r" % res) if res else "not reproduced")
         return 1 if res else 0
     else:
